@@ -41,7 +41,7 @@ HARNESS(h_floor_ceil_trunc_f)
 HARNESS(h_floor_ceil_trunc_d)
 {
     IN(f64, x);
-    ASSUME(x > -2147483648.0 && x < 2147483648.0);
+    ASSUME(x >= -2147483647.0 && x <= 2147483647.0);   /* results representable as int: for 2^31-1 < x < 2^31 the true ceil, 2^31, is not */
     i32 f = (i32)w_floord(x), c = (i32)w_ceild(x), t = (i32)w_truncd(x);
     CHECK((f64)f <= x && x < (f64)f + 1.0, "floor: r <= x < r+1");
     CHECK((f64)c >= x && x > (f64)c - 1.0, "ceil: r-1 < x <= r");
